@@ -17,6 +17,7 @@ CONF = {
     "C10": {"quick": 480, "thorough": 20000, "batch": 30, "min_distinct": 8, "loops": [1, 1, 2]},
     "C11": {"quick": 160, "thorough": 8000, "batch": 10, "min_distinct": 10, "loops": [1]},
     "C18": {"quick": 320, "thorough": 10000, "batch": 20, "min_distinct": 20, "loops": [1]},
+    "C15": {"quick": 320, "thorough": 16000, "batch": 20, "min_distinct": 20, "loops": [1, 2], "strace": {"quick": 40, "thorough": 800}},
     "C17": {"quick": 640, "thorough": 30000, "batch": 40, "min_distinct": 20, "loops": [1, 2], "engine": "muxmon", "pkg": "mux", "test": "TestVerifMux"},
     "C14": {"quick": 480, "thorough": 20000, "batch": 30, "min_distinct": 20, "loops": [1, 2]},
     "C13": {"quick": 240, "thorough": 8000, "batch": 15, "min_distinct": 12, "loops": [2, 1, 2]},
@@ -108,7 +109,46 @@ def run(prop, tier, seed, replay=None):
     results = vlib.parallel(one, batches, jobs=conf.get("jobs"))
     recs = [x for r, _ in results for x in r]
     crashes = [c for _, cs in results for c in cs]
+    if conf.get("strace"):
+        recs += strace_pass(prop, binary, seed, conf, tier, total)
     return verdict(prop, tier, seed, recs, crashes, total, bt, t0, conf)
+
+
+def strace_pass(prop, binary, seed, conf, tier, total):
+    """Kernel-side observer: the same scenario under strace; every close(n) = -1 EBADF in the
+    process is a close of a descriptor that was not open (a double close by somebody)."""
+    import shutil
+    if not shutil.which("strace"):
+        return [{"kind": "stats", "stats": {"strace_unavailable": 1}}]
+    n = conf["strace"][tier]
+    sc = vlib.scratch()
+    out = []
+    per = 20
+    jobs = [(total + i * per, per, i) for i in range((n + per - 1) // per)]
+
+    def one(j):
+        frm, cnt, i = j
+        log = os.path.join(sc, "strace-%d.log" % i)
+        env = {"VERIF_SEED": str(seed), "VERIF_FROM": str(frm), "VERIF_COUNT": str(cnt), "VERIF_SCEN": prop, "VERIF_LOOPS": "2", "VERIF_NO_DIRECTED": "1", "VERIF_WATCHDOG_S": "120"}
+        r = vlib.run_child(binary, TEST, env, 900, "%s-strace-%d" % (prop, i), wrap=["strace", "-f", "--seccomp-bpf", "-e", "trace=close", "-o", log])
+        rec = list(r["records"])
+        closes, ebadf = 0, []
+        if os.path.exists(log):
+            for line in open(log, errors="replace"):
+                if "close(" in line:
+                    closes += 1
+                    if "EBADF" in line:
+                        ebadf.append(line.strip())
+        rec.append({"kind": "stats", "stats": {"strace_close_calls_seen": closes, "strace_ebadf_closes": len(ebadf), "strace_runs": 1 if closes else 0}})
+        if ebadf:
+            rec.append({"kind": "violation", "engine": ENGINE, "scenario": prop, "case": frm, "property": prop, "oracle": "kernel_view_ebadf",
+                        "msg": "strace saw %d close() call(s) fail with EBADF in the process: a descriptor number was closed that was not open (double close)" % len(ebadf),
+                        "params": {"from": frm, "count": cnt, "strace_lines": ebadf[:10]}})
+        return rec
+
+    for r in vlib.parallel(one, jobs, jobs=4):
+        out += r
+    return out
 
 
 def verdict(prop, tier, seed, recs, crashes, total, bt, t0, conf):
